@@ -45,3 +45,133 @@ Theorem c08_write_token_exclusive : ltac:(let t := type of write_token_exclusive
 Proof. exact write_token_exclusive. Qed.
 Check c08_write_token_exclusive.
 Print Assumptions c08_write_token_exclusive.
+
+(* ---- the whole-packets invariant of the session model, over all histories ---- *)
+(* Additions for coq/props/C08.v: C08 as a theorem about the session model (Session.v),
+   for all histories.  Append after the existing content of C08.v (needs
+   theories/WholePackets.v in _CoqProject after theories/C08Check.v and theories/TxIds.v). *)
+From Coq Require Import ZArith List.
+From MQ Require Import Session Outbound PacketsProofs Spec Trace C08Check ConnectProofs WholePackets.
+Import ListNotations.
+Local Open Scope N_scope.
+
+(* Vocabulary (WholePackets.v):
+   one_packet bs    := exists pk, Spec.parse_packet bs = Some (pk, [])
+   whole s          := s is a concatenation of one_packet strings
+   framed s         := s = s0 ++ t, whole s0, t a prefix of some one_packet string
+   wchunks tape tr  := replay of the logged calls tr against the write tape: per conn.Write
+                       with a non-empty argument the (connection, accepted bytes)
+   wire G cn        := everything connection cn accepted in the chunk list G
+   op_ok o          := persisted levels 1/2, subscription maxima below 3 (the Go API)
+   store_ok m       := every decodable record: key 0 a checked client identifier, any other
+                       key a packet (also with the DUP flag set, if it is a PUBLISH)
+   ConnLogInv c m G := store_ok m, cfg_wf, pending acknowledgement empty or one packet,
+                       connections >= k_nconn c untouched, every connection framed,
+                       the connection in k_wsem c below k_nconn c and whole *)
+
+(* L-A.  One API call, any client state that is sound so far, any script: what each
+   connection accepted during the call is whole packets, then at most a prefix of one. *)
+Theorem c08_step_writes_framed :
+  forall c o w c' r w' m,
+    op_ok o -> w_store w = Some m -> store_ok m -> cfg_wf (s_cfg (k_cfg c)) -> sendable (k_pack c) ->
+    (forall cn, k_wsem c = WsConn cn -> cn < k_nconn c) ->
+    step c o w = Some ((c', r), w') ->
+    exists tr, grows w w' tr /\ t_wr w' = wtape (t_wr w) tr /\
+               forall cn, framed (wire (wchunks (t_wr w) tr) cn).
+Proof. exact step_writes_framed. Qed.
+Print Assumptions c08_step_writes_framed.
+
+(* L-B.  A failed write gives the token up ... *)
+Theorem c08_failed_write_gives_up :
+  forall c cn bufs single w c' e w',
+    locked_write c cn bufs single w = Some ((c', e), w') -> e <> 0 -> k_wsem c' = WsPending.
+Proof. exact locked_write_error_gives_up. Qed.
+Print Assumptions c08_failed_write_gives_up.
+
+(* ... and a connection below k_nconn that does not hold the token is never written again
+   (no conn.Write call consumes a tape answer for it) and never gets the token back. *)
+Theorem c08_dead_connection_frozen :
+  forall c o w c' r w' m G cn,
+    op_ok o -> w_store w = Some m -> ConnLogInv c m G -> cn < k_nconn c -> k_wsem c <> WsConn cn ->
+    step c o w = Some ((c', r), w') ->
+    exists m' d, w_store w' = Some m' /\ wrel w w' d /\ ConnLogInv c' m' (G ++ d) /\
+                 chunks_on d cn = [] /\ wire d cn = [] /\ cn < k_nconn c' /\ k_wsem c' <> WsConn cn.
+Proof. exact step_dead_frozen. Qed.
+Print Assumptions c08_dead_connection_frozen.
+
+Theorem c08_writes_only_live :
+  forall c o w c' r w' m G cn,
+    op_ok o -> w_store w = Some m -> ConnLogInv c m G -> step c o w = Some ((c', r), w') ->
+    exists d, wrel w w' d /\ (chunks_on d cn <> [] -> k_wsem c = WsConn cn \/ k_nconn c <= cn).
+Proof. exact step_writes_only_live. Qed.
+Print Assumptions c08_writes_only_live.
+
+Theorem c08_conn_numbers_grow :
+  forall c o w c' r w' m G,
+    op_ok o -> w_store w = Some m -> ConnLogInv c m G -> step c o w = Some ((c', r), w') ->
+    k_nconn c <= k_nconn c'.
+Proof. exact step_nconn_mono. Qed.
+Print Assumptions c08_conn_numbers_grow.
+
+(* L-C.  The invariant is kept by every API call (AdoptSession included) under every
+   script in map mode ... *)
+Theorem c08_step_conn_log_inv :
+  forall c o w c' r w' m G,
+    op_ok o -> w_store w = Some m -> ConnLogInv c m G -> step c o w = Some ((c', r), w') ->
+    exists m' d, w_store w' = Some m' /\ wrel w w' d /\ ConnLogInv c' m' (G ++ d).
+Proof. exact step_conn_log_inv. Qed.
+Print Assumptions c08_step_conn_log_inv.
+
+(* ... hence holds after every history of the closed system ... *)
+Theorem c08_run_conn_log_inv :
+  forall cf cid tp0 s0 h,
+    cfg_wf (s_cfg cf) -> init_sys cf cid tp0 = Some s0 -> Forall (fun p => op_ok (fst p)) h ->
+    ConnLogInv (sy_c (run s0 h)) (sy_m (run s0 h)) (snd (run_wire s0 h [])).
+Proof. exact run_conn_log_inv. Qed.
+Print Assumptions c08_run_conn_log_inv.
+
+Theorem c08_run_conn_framed :
+  forall cf cid tp0 s0 h cn,
+    cfg_wf (s_cfg cf) -> init_sys cf cid tp0 = Some s0 -> Forall (fun p => op_ok (fst p)) h ->
+    framed (wire (snd (run_wire s0 h [])) cn) /\
+    (k_wsem (sy_c (run s0 h)) = WsConn cn -> whole (wire (snd (run_wire s0 h [])) cn)).
+Proof. exact run_conn_framed. Qed.
+Print Assumptions c08_run_conn_framed.
+
+(* ... and the checker's predicate (C08Check.conn_whole, the boolean one the recorded
+   traces are judged by) holds of the trace of every history of the model. *)
+Theorem c08_conn_whole_model :
+  forall cf cid tp0 s0 h cn,
+    cfg_wf (s_cfg cf) -> init_sys cf cid tp0 = Some s0 -> Forall (fun p => op_ok (fst p)) h ->
+    conn_whole (run_trace s0 h 1) cn = true.
+Proof. exact WholePackets.c08_conn_whole_model. Qed.
+Print Assumptions c08_conn_whole_model.
+
+(* every framed stream passes the checker: the bridge from Prop to bool *)
+Theorem c08_framed_passes_checker :
+  forall s, framed s -> (let '(_, tail) := packets_of s in incomplete_tail tail) = true.
+Proof. exact framed_tail_incomplete. Qed.
+Print Assumptions c08_framed_passes_checker.
+
+(* Non-vacuity: connect, a PINGREQ cut after one byte (request fails, connection 0 is given
+   up with the tail [192]), redial, PINGREQ on connection 1 (whole packets). *)
+Example c08_model_witness :
+  exists s0, init_sys wp_cfg [99] (mkTapes [false; false] [] [] []) = Some s0 /\
+    Forall (fun p => op_ok (fst p)) wp_hist /\
+    let s := run s0 wp_hist in
+    let G := snd (run_wire s0 wp_hist []) in
+    k_wsem (sy_c s) = WsConn 1 /\ k_nconn (sy_c s) = 2 /\
+    packets_of (wire G 0) = ([PConnect false 0 [99] None None None], [192]) /\
+    packets_of (wire G 1) = ([PConnect false 0 [99] None None None; PPingreq], []) /\
+    conn_whole (run_trace s0 wp_hist 1) 0 = true /\ conn_whole (run_trace s0 wp_hist 1) 1 = true.
+Proof. exact wp_short_write_history. Qed.
+
+(* The store hypothesis is needed: a forged record under a publish key is resent as it is. *)
+Example c08_forged_record_is_resent :
+  let s := mkSys (new_client wp_cfg 0) [(0, encode_value [99] 1); (32768, encode_value [50; 0] 2)] in
+  let h := [ (OpAdopt 4 4, mkTapes [false; false] [] [] []);
+             (OpRead, mkTapes [false; false] [true] [(0, WOk); (0, WOk)]
+                              [RData [32; 2; 1; 0]; RData [48; 3; 0; 1; 97]]) ] in
+  wire (snd (run_wire s h [])) 0 = [16; 13; 0; 4; 77; 81; 84; 84; 4; 0; 0; 0; 0; 1; 99; 58; 0] /\
+  conn_whole (run_trace s h 1) 0 = false.
+Proof. exact forged_record_is_resent. Qed.
